@@ -1245,7 +1245,7 @@ func vcFamilyOracle(o *vOut, r *vRand) {
 	}
 	mp := &vcMpCorr{o: o}
 	for round := 0; round < rounds; round++ {
-		nl := append(append(vcCorpusNLRIs(), vcBoundaryNLRIs()...), vC04GenNLRIs(r)...)
+		nl := append(append(append(vcCorpusNLRIs(), vcBoundaryNLRIs()...), vcAddrNLRIs()...), vC04GenNLRIs(r)...)
 		fams := map[Family]bool{}
 		for _, c := range nl {
 			c := c
@@ -1271,6 +1271,9 @@ func vcFamilyOracle(o *vOut, r *vRand) {
 					}
 					if strings.HasPrefix(c.name, "bnd/") {
 						o.stat("fam_bnd_nlri", 1)
+					}
+					if strings.HasPrefix(c.name, "addr/") {
+						o.stat("fam_addr_nlri", 1)
 					}
 					if err == nil {
 						mp.nlriAsks(r, c.family, ap, opts, c.nlri) // the model answers for its families
@@ -1312,6 +1315,7 @@ func vcFamilyOracle(o *vOut, r *vRand) {
 		o.stats["fam_families_covered_last_round"] = len(fams)
 
 		attrCases := append(append(vcCorpusAttrs(), vcBoundaryAttrs()...), vcPairAttrs(r, nl)...)
+		attrCases = append(attrCases, vcAddrAttrs()...)
 		attrCases = append(attrCases, vC04GenAttrs(r)...)
 		for _, c := range attrCases {
 			c := c
@@ -1412,6 +1416,9 @@ func vcFamilyOracle(o *vOut, r *vRand) {
 							if strings.Contains(c.name, ":pair/") {
 								o.stat("fam_pair_framing_checked", 1)
 							}
+						}
+						if strings.Contains(c.name, ":addr/") {
+							o.stat("fam_addr_attr", 1)
 						}
 						if strings.Contains(c.name, ":bnd/") {
 							o.stat("fam_bnd_attr", 1)
